@@ -1,5 +1,5 @@
 (* Proofs about Model/LB.v (property C15). *)
-From Coq Require Import Lia ZArith ZifyBool List Bool.
+From Coq Require Import Lia ZArith Znumtheory ZifyBool List Bool.
 From GV Require Import Lib.Trace Model.LB.
 Import ListNotations.
 Close Scope string_scope.
@@ -8,8 +8,6 @@ Open Scope Z_scope.
 
 Ltac splits := repeat match goal with |- _ /\ _ => split end.
 
-Definition zlen (l : list Z) : Z := Z.of_nat (List.length l).
-Definition is_bytes (s : bytes) : Prop := Forall (fun b => 0 <= b < 256) s.
 
 (* ------------------------------------------------------------------ *)
 (* crc32 stays a uint32                                                 *)
@@ -103,21 +101,6 @@ Qed.
 (* ------------------------------------------------------------------ *)
 (* round robin                                                          *)
 
-(* the loops chosen by m consecutive next() calls starting with counter value ctr *)
-Fixpoint rr_accepts (ctr size : Z) (m : nat) : list Z :=
-  match m with
-  | O => []
-  | S m' => match rr_next ctr size with
-            | Ret (i, c) => i :: rr_accepts c size m'
-            | Panic => []
-            end
-  end.
-
-Fixpoint count (i : Z) (l : list Z) : Z :=
-  match l with
-  | [] => 0
-  | x :: t => (if x =? i then 1 else 0) + count i t
-  end.
 
 Lemma wrapu64_small : forall z, 0 <= z < 2 ^ 64 -> wrapu64 z = z.
 Proof. intros. unfold wrapu64. apply Z.mod_small. lia. Qed.
@@ -283,8 +266,6 @@ Proof. reflexivity. Qed.
 (* ------------------------------------------------------------------ *)
 (* base balancer and next for every policy                              *)
 
-Definition wf (st : lbstate) : Prop :=
-  0 <= lb_size st /\ zlen (lb_counts st) = lb_size st.
 
 Lemma wf_new : forall p, wf (lb_new p).
 Proof. intros; unfold wf; cbn; lia. Qed.
@@ -357,14 +338,6 @@ Proof.
 Qed.
 
 (* Round-Robin through the balancer state: k*N accepts in a row *)
-Fixpoint lb_accepts (st : lbstate) (addrs : list (option bytes)) : list Z * lbstate :=
-  match addrs with
-  | [] => ([], st)
-  | a :: t => match lb_next st a with
-              | (Ret i, st') => let r := lb_accepts st' t in (i :: fst r, snd r)
-              | (Panic, st') => ([], st')
-              end
-  end.
 
 Lemma lb_accepts_rr : forall addrs st, lb_policy st = RR -> 1 <= lb_size st ->
   fst (lb_accepts st addrs) = rr_accepts (lb_ctr st) (lb_size st) (List.length addrs).
@@ -372,7 +345,7 @@ Proof.
   induction addrs as [|a t IH]; intros st Hp Hs; [reflexivity|].
   cbn [lb_accepts List.length rr_accepts]. unfold lb_next. rewrite Hp.
   unfold rr_next. destruct (Z.eqb_spec (lb_size st) 0); [lia|].
-  cbn [fst snd]. rewrite IH by (cbn; assumption). reflexivity.
+  cbn [fst snd]. rewrite IH by (cbn; first [reflexivity|assumption]). reflexivity.
 Qed.
 
 Theorem rr_balanced_lb : forall k st addrs i, lb_policy st = RR -> 1 <= lb_size st -> 0 <= lb_ctr st ->
@@ -384,3 +357,6 @@ Proof.
   replace (List.length addrs) with (Z.to_nat (k * lb_size st)) by lia.
   apply rr_balanced; assumption.
 Qed.
+
+Theorem hash_crc32_range : forall s, is_bytes s -> hash s = crc32 s /\ 0 <= crc32 s < 2 ^ 32.
+Proof. intros s H. split; [exact (hash_is_crc32 s H)|exact (crc32_range s H)]. Qed.
